@@ -36,6 +36,8 @@ class merge_results(FnContract):
                 out.append({"n": n, "order": order, "keys": "equal"})
         out.append({"n": 2, "order": "same", "keys": "stats_differ"})
         out.append({"n": 2, "order": "same", "keys": "arrays_differ"})
+        out.append({"n": 2, "order": "same", "keys": "stats_superset_later"})
+        out.append({"n": 3, "order": "same", "keys": "arrays_superset_later"})
         out.append({"n": 0, "order": "same", "keys": "equal"})
         return out
 
@@ -49,6 +51,10 @@ class merge_results(FnContract):
                 sk = ["rmse", "max"]
             if keys == "arrays_differ" and i == 1:
                 ak = ["error_array"]
+            if keys == "stats_superset_later" and i == 1:
+                sk = ["rmse", "mean", "max"]          # a later result has one more statistic than the first
+            if keys == "arrays_superset_later" and i == 2:
+                ak = ["error_array", "timestamps", "distances"]
             rs.append(mk_result(c, "r%d" % i, sk, ak))
         return dict(results=rs)
 
